@@ -294,7 +294,7 @@ PROPS["C16"] = {
     "level_text": "Each case builds a SendSideBWE with generated (min <= initial <= max) and pacer, then runs rounds of real-time spaced sends and TWCC / RFC 8888 feedback with "
                   "generated arrival patterns (zero, equal, decreasing arrivals, huge gaps, 0..100 % loss, duplicated, empty); after every feedback, at quiescence (empty-feedback "
                   "sentinel + callback goroutines finished) the target, every callback value and every rate given to the pacer must lie within [min, max] and agree; a second property closes the "
-                  "estimator while a rate change is being delivered to a pacer or callback that stalls for 0.3..1.6 s and then feeds feedback (closed error, no panic, no blocking). Exploration.",
+                  "estimator while a rate change is being delivered to a pacer or callback that stalls for 0.3..1.6 s and then feeds feedback (closed error, no panic, no blocking); a third races Close against goroutines feeding feedback, a thousand short-lived estimators per case. Exploration.",
     "level_note": "trusts: wall-clock pacing of sends (the estimator reads time.Now); 'never blocks' is decided as 'returns within 20 s'; the change callback is installed before traffic; "
                   "a leaky-bucket pacer that does not drain within 5 s makes the case inconclusive",
     "assumptions": ["OnTargetBitrateChange is set before traffic", "feedback is well-formed"],
@@ -302,11 +302,13 @@ PROPS["C16"] = {
         {"test": "^TestRegress", "timeout": 120},
         {"test": "^TestTargetBitrateBounded$", "checks": 25, "shards": 8, "timeout": 600},
         {"test": "^TestCloseDuringSlowCallout$", "checks": 4, "shards": 4, "timeout": 300},
+        {"test": "^TestCloseRacesFeedback$", "checks": 6, "shards": 4, "timeout": 300},
     ],
     "thorough": [
         {"test": "^TestRegress", "timeout": 120},
         {"test": "^TestTargetBitrateBounded$", "checks": 600, "shards": 15, "timeout": 1800},
         {"test": "^TestCloseDuringSlowCallout$", "checks": 40, "shards": 8, "timeout": 900},
+        {"test": "^TestCloseRacesFeedback$", "checks": 60, "shards": 8, "timeout": 900},
     ],
 }
 
